@@ -102,9 +102,9 @@ def run(c):
         open(tr, "a").write(open(trk).read())
     # the same pair unified twice (solved holes are read back at their shifts, below binders and local definitions)
     asz = 7 if c.quick else 8
-    sa2 = vf.tlc_generate("MC_Punch", vf.cfg_consts(MaxSize=asz, Skel=1, FreeVars=0, MaxIdx=3, TyFuel=400, Formers={"type", "int", "var", "lam", "let1"}, Ops={"sum"}, Lits={1}) +
+    sa2 = vf.tlc_generate("MC_Punch", vf.cfg_consts(MaxSize=asz, Skel=1, FreeVars=0, MaxIdx=3, TyFuel=400, Formers={"type", "int", "var", "lam", "let1", "app"}, Ops={"sum"}, Lits={1}) +
                           "INIT SInit\nNEXT BNext\nINVARIANTS Emit3\nCHECK_DEADLOCK FALSE\n", "punch-again-%d" % asz, timeout=3000, workers=10)
-    c.add_tlc(sa2, "pairs unified twice, hosts (x : type) => body over type / int / variables / functions / local definitions; generation")
+    c.add_tlc(sa2, "pairs unified twice, closed and on the bodies under the definitions context of the outer binders; hosts (x : type) => body over type / int / variables / functions / applications / local definitions; generation")
     tra = os.path.join(d, "trace-again.ndjson")
     vf.gv(["record-unify", sa2["out"], tra, summ], timeout=3000)
     s = json.load(open(summ))
